@@ -101,7 +101,28 @@ def op_pipeline(req):
         shutil.rmtree(d, ignore_errors=True)
 
 
-OPS = {"pipeline": op_pipeline}
+def op_preprocess(req):
+    """Only PreProcessor.process: revised annotation and per-chromosome caches."""
+    from vh import gen
+    from transposon.preprocess import PreProcessor
+    d = tempfile.mkdtemp(prefix="vh_")
+    try:
+        gpath, tpath = os.path.join(d, "genes.tsv"), os.path.join(d, "tes.tsv")
+        gen.write_pair(req["case"], gpath, tpath)
+        out = os.path.join(d, "out")
+        os.makedirs(out)
+        pre = PreProcessor(gpath, tpath, out, req.get("reset_h5", False), req.get("genome", "G"), req.get("revise_anno", False))
+        pre.process()
+        caches = {}
+        for fn in sorted(os.listdir(pre.cache_dir)):
+            if fn.endswith("_TEData.tsv"):
+                caches[fn] = read_tsv(os.path.join(pre.cache_dir, fn))
+        return {"ok": True, "revised": read_tsv(pre.te_revised), "te_caches": caches}
+    finally:
+        shutil.rmtree(d, ignore_errors=True)
+
+
+OPS = {"pipeline": op_pipeline, "preprocess": op_preprocess}
 
 
 def main():
